@@ -278,6 +278,9 @@ def dw_table(obj, data):
 @ispec("*>[ {04} ~data(*) ]", mnemonic="if")
 def dw_op_block(obj, data):
     data = pack(data)
+    if len(data) == 0:
+        # the block type is missing
+        raise InstructionError(obj)
     bt = data[0]
     if bt == 0x40:
         obj.bt = 0x40
